@@ -40,6 +40,7 @@ class Scenario:
   budget: dict = dc.field(default_factory=lambda: {'quick': 200, 'thorough': 2000})
   shards: Any = dc.field(default_factory=lambda: {'quick': 4, 'thorough': 16})
   nondeterministic: bool = False   # real OS threads: a failure is confirmed by reruns
+  confirm_tries: int = 5           # reruns of a failing case of a nondeterministic scenario before it counts as inconclusive
   shrink_s: dict = dc.field(default_factory=lambda: {'quick': 45.0, 'thorough': 240.0})
   setup: Callable[[], None] | None = None
   # supplementary coverage-guided engine (atheris): decode(FuzzedDataProvider) -> case | None; runs per tier; modules to instrument
